@@ -170,7 +170,8 @@ end
 /-! ### `parse_sequence_keys`: press/release stream → u16 encoding -/
 
 inductive Crash
-  /-- `.expect("had to be pressed to be released")` in parse_sequence_keys -/
+  /-- `.expect("had to be pressed to be released")` in parse_sequence_keys: no longer reachable since
+  the repair 8429da5 (a modifier prefix on an empty list is now a diagnostic) -/
   | expectPressed
   /-- `ticks_until_timeout -= 1` at 0 (tick_sequence_state) -/
   | timeoutUnderflow
@@ -228,7 +229,7 @@ def encodeEvents : List Ev → (mods : List Nat) → (seq : List Nat) → (doRel
     let doRel' := isRelease rest.head?
     if doRel then
       match eraseFirst mods r with
-      | none => .error (.crash .expectPressed)
+      | none => .error .badItem   -- was `.expect("had to be pressed to be released")` before the repair (8429da5)
       | some mods' => encodeEvents rest mods' seq doRel'
     else encodeEvents rest mods seq doRel'
 
